@@ -12,7 +12,7 @@ from ..gen.doc import DocGen
 from ..gen.schemas import rich_inc
 from ..mon.incrun import run_incremental
 from ..ref.executor import Ref
-from ..ref.incremental import stream_order_problems, Assembler, defer_label_nesting, first_difference, refines, unordered_equal
+from ..ref.incremental import defer_owners, stream_order_problems, Assembler, defer_label_nesting, first_difference, refines, unordered_equal
 
 LEVEL = "exploration"
 LEVEL_TEXT = ("Generated validated queries with @defer/@stream (nested, labelled, if:false / variable, overlapping fragments, initialCount 0..3, streams over lists, "
@@ -139,6 +139,25 @@ def shared_fragment_stream_doc(rng):
     return f'query Q {{ {parts[0]} {parts[1]} }} {frag}'
 
 
+def nested_shared_defer_doc(rng):
+    """A field shared between a fragment that can fail (it selects non-null fields) and a fragment nested inside a
+    different sibling fragment: when the first fails while the sibling is still pending, the nested fragment has not been
+    released yet but still needs the shared unit of work."""
+    leafs = ['name', 'age', 'active', 'role', 'blob', 'roles', 'tags']
+    nn = rng.choice(['score', 'id', 'nnBest { id }', 'nnBest { score }', 'nnFriends { id }', 'tags'])
+    parent = rng.choice(['me', 'nnMe', 'users', 'me { best', 'users @stream(initialCount: 1)', 'me { nnBest'])
+    x = rng.choice(leafs + ['best { name }', 'best { age id }', 'nnBest { name }'])
+    y, z = rng.sample(leafs, 2)
+    d3 = rng.choice([x, f'{x} {z}', f'{z} {x}'])
+    d1 = rng.choice([f'{x} {nn}', f'{nn} {x}'])
+    d2 = rng.choice([f'{y} ... @defer(label: "D3") {{ {d3} }}', f'... @defer(label: "D3") {{ {d3} }} {y}', f'best {{ {y} }} ... @defer(label: "D3") {{ {d3} }}'])
+    parts = [f'... @defer(label: "D1") {{ {d1} }}', f'... @defer(label: "D2") {{ {d2} }}']
+    rng.shuffle(parts)
+    body = ' '.join(parts)
+    close = ' }' if '{' in parent else ''
+    return f'query Q {{ {parent} {{ {rng.choice(["", "id ", y + " "])}{body} }}{close} }}'
+
+
 _gen_inc = {}
 
 
@@ -166,6 +185,8 @@ def gen_request(seed, p_defer=0.35, p_stream=0.35):
         return schema, stream_doc(rng), {}, rng
     if seed % 11 == 5:
         return schema, shared_fragment_stream_doc(rng), {}, rng
+    if seed % 11 == 3:
+        return schema, nested_shared_defer_doc(rng), {}, rng
     if seed % 11 == 4:
         # mutations: root fields run one after another, the deferred / streamed parts of each belong to one payload stream
         g = DocGen(schema, rng, ops=('mutation',), max_depth=3, p_defer=0.5, p_stream=0.5)
@@ -223,9 +244,19 @@ def judge_merge(ctx, asm, ref, ref_noprop, noprop, case, src):
                 return False
         return True
     ctx.count("assembled_compared_refines")
-    d = refines(data, ref_noprop['data'], errs, asm.failed)
+    d = refines(data, ref_noprop['data'], errs, asm.failed, owners=ref_noprop.get('defer_owners'))
+    if ref_noprop.get('defer_owners'):
+        ctx.count("refines_judged_with_fragment_ownership")
     if d:
-        ctx.violation("assembled-does-not-refine-reference", {"source": src[:700], "problem": d, "failed": [(f['id'], f['path'], f['label']) for f in asm.failed][:4],
+        mech = "assembled-does-not-refine-reference"
+        info = getattr(d, 'info', None)
+        if info and info['kind'] == 'missing-key' and info['failed_chains'] and info['unfailed_chains']:
+            announced = {(ev[3], tuple(ev[2])) for ev in asm.events if ev[0] == 'pending'}
+            if all(c[-1] not in announced for c in info['unfailed_chains']):
+                # the key is a unit of work shared between a fragment that was completed with errors and fragments that were
+                # never announced: they were dropped as "empty" because the shared work had completed (recorded finding)
+                mech += ":shared-field-lost-when-a-co-owning-fragment-fails"
+        ctx.violation(mech, {"source": src[:700], "problem": str(d), "failed": [(f['id'], f['path'], f['label']) for f in asm.failed][:4],
                                                               "error_paths": errs[:6]}, case)
         return False
     # every delivered error must be one the reference (non-propagating) execution also has
@@ -333,7 +364,9 @@ def check_request(ctx, seed, k, protocol=False, merge=True):
     ref = Ref(schema, doc, value_fn, variables).run()
     if ref.get('request_error'):
         return
-    ref_noprop = Ref(schema, doc, value_fn, variables).run(force_no_propagation=True, partial_lists=True)
+    rn = Ref(schema, doc, value_fn, variables)
+    ref_noprop = rn.run(force_no_propagation=True, partial_lists=True)
+    ref_noprop['defer_owners'] = defer_owners(rn, ref_noprop.get('data'))
     noprop = 'experimental_disableErrorPropagation' in src
     nesting = defer_label_nesting(doc)
     base_case = {"seed": seed, "source": src, "variables": variables, "fault_rate": fault}
